@@ -562,6 +562,9 @@ impl Run {
                                     for (ci, c) in plan.c.iter().enumerate() {
                                         regs[2] = *c;
                                         for &oi in &ops3 {
+                                            if ops[oi].heavy && bi >= plan.heavy_b_limit {
+                                                continue;
+                                            }
                                             for &x in auxv(ops[oi].aux) {
                                                 ctx.with(&zc[ci], x);
                                                 crumbs::at(slot, ops[oi].name, ai, bi, ci, x);
@@ -968,9 +971,31 @@ pub struct Local {
     pub values: HashSet<u64>,
     pub samples: Vec<String>,
     pub viols: Vec<Violation>,
+    /// breadcrumb slot of the worker thread and the text it points at
+    pub slot: Option<usize>,
+    pub crumb: String,
 }
 
 impl Local {
+    /// announce the transition that is about to be executed on the implementation, so that a crash
+    /// or hang inside it can be attributed (the text is what `--replay` takes)
+    #[inline]
+    pub fn enter(&mut self, config: &str, op: &str, state: impl Fn() -> Vec<String>, aux: u64) {
+        if self.slot.is_none() {
+            return;
+        }
+        self.crumb.clear();
+        self.crumb.push_str(config);
+        self.crumb.push('\x1f');
+        self.crumb.push_str(op);
+        for t in state() {
+            self.crumb.push('\x1f');
+            self.crumb.push_str(&t);
+        }
+        self.crumb.push('\x1f');
+        self.crumb.push_str(&aux.to_string());
+        crumbs::at_text(self.slot, &self.crumb);
+    }
     /// compare one transition with its expectation
     #[inline]
     pub fn check<Z: ZNum>(&mut self, config: &str, op: &str, state: impl Fn() -> Vec<String>, aux: u64, e: &Expect<Z>, o: &Obs<Z>) {
@@ -1079,6 +1104,7 @@ pub fn par_chunks(threads: usize, n: usize, f: impl Fn(usize, usize, &mut Local)
         for _ in 0..threads.max(1).min(n.max(1)) {
             s.spawn(|| {
                 let mut l = Local::default();
+                l.slot = crumbs::claim("custom", "custom");
                 loop {
                     let lo = next.fetch_add(chunk, std::sync::atomic::Ordering::Relaxed);
                     if lo >= n {
@@ -1086,6 +1112,8 @@ pub fn par_chunks(threads: usize, n: usize, f: impl Fn(usize, usize, &mut Local)
                     }
                     f(lo, (lo + chunk).min(n), &mut l);
                 }
+                crumbs::release(l.slot);
+                l.slot = None;
                 out.lock().unwrap().absorb(l);
             });
         }
@@ -1305,6 +1333,9 @@ pub mod crumbs {
         pub ci: AtomicU64,
         pub aux: AtomicU64,
         pub tick: AtomicU64,
+        /// the slot describes a custom-engine transition: cfg_ptr/cfg_len point at a text
+        /// "config\x1fop\x1ftoken...\x1faux" owned by the worker's `Local`
+        pub custom: AtomicBool,
     }
     #[allow(clippy::declare_interior_mutable_const)]
     const EMPTY: Slot = Slot {
@@ -1320,6 +1351,7 @@ pub mod crumbs {
         ci: AtomicU64::new(0),
         aux: AtomicU64::new(0),
         tick: AtomicU64::new(0),
+        custom: AtomicBool::new(false),
     };
     pub static TABLE: [Slot; SLOTS] = [EMPTY; SLOTS];
     thread_local! {
@@ -1337,6 +1369,7 @@ pub mod crumbs {
                 s.plan_ptr.store(plan.as_ptr() as usize, Relaxed);
                 s.plan_len.store(plan.len(), Relaxed);
                 s.op_len.store(0, Relaxed);
+                s.custom.store(false, Relaxed);
                 MINE.with(|m| m.set(i));
                 return Some(i);
             }
@@ -1360,6 +1393,19 @@ pub mod crumbs {
             s.bi.store(bi as u64, Relaxed);
             s.ci.store(ci as u64, Relaxed);
             s.aux.store(aux, Relaxed);
+            s.tick.fetch_add(1, Relaxed);
+        }
+    }
+
+    /// custom engines: publish the text describing the transition about to be executed
+    #[inline]
+    pub fn at_text(i: Option<usize>, text: &str) {
+        if let Some(i) = i {
+            let s = &TABLE[i];
+            s.cfg_ptr.store(text.as_ptr() as usize, Relaxed);
+            s.cfg_len.store(text.len(), Relaxed);
+            s.custom.store(true, Relaxed);
+            s.op_len.store(1, Relaxed);
             s.tick.fetch_add(1, Relaxed);
         }
     }
@@ -1408,6 +1454,24 @@ pub mod crumbs {
             let mut buf = [0u8; 1024];
             let mut n = 0usize;
             put(&mut buf, &mut n, tag);
+            if s.custom.load(Relaxed) {
+                put(&mut buf, &mut n, b"-STATE|");
+                let (p, l) = (s.cfg_ptr.load(Relaxed), s.cfg_len.load(Relaxed));
+                if p != 0 && l < 900 {
+                    let sl = unsafe { core::slice::from_raw_parts(p as *const u8, l) };
+                    for &b in sl {
+                        put(&mut buf, &mut n, if b == 0x1f { b"|" } else { core::slice::from_ref(&b) });
+                    }
+                }
+                if n < buf.len() {
+                    buf[n] = b'\n';
+                    n += 1;
+                }
+                unsafe {
+                    write(2, buf.as_ptr(), n);
+                }
+                continue;
+            }
             for (p, l) in [(&s.cfg_ptr, &s.cfg_len), (&s.plan_ptr, &s.plan_len), (&s.op_ptr, &s.op_len)] {
                 put(&mut buf, &mut n, b"|");
                 let (p, l) = (p.load(Relaxed), l.load(Relaxed));
